@@ -285,6 +285,13 @@ def doc(model_b, proto, ctx, what, detail, payload_hex=None, fmt="binary", lang=
             "payload_hex": payload_hex, "format": fmt, "lang": lang, "seed": ctx["seed"], "model_index": ctx["i"]}
 
 
+def _sanitize(task):
+    """The C++ readers of the thorough tier are built with AddressSanitizer + UBSan: a reader that reads past a corrupted length
+    ends the harness process, which is judged as a crash.  VERIF_C15_SANITIZE=1/0 overrides the tier."""
+    v = os.environ.get("VERIF_C15_SANITIZE")
+    return (v == "1") if v in ("0", "1") else task["tier"] != "quick"
+
+
 def run_twin(task, rng, pkg_b, edit, a_streams, want_cpp, ybin, root, quick, stats, viols, cases, only_misdelivery=False):
     i = task["i"]
     try:
@@ -298,7 +305,7 @@ def run_twin(task, rng, pkg_b, edit, a_streams, want_cpp, ybin, root, quick, sta
         cm = None
         if want_cpp:
             try:
-                cm = C.CppModel(model.dir)
+                cm = C.CppModel(model.dir, sanitize=_sanitize(task))
             except C.GeneratedCodeDoesNotCompile:
                 stats["generated_cpp_did_not_compile(discarded)"] = 1
         env, ns = model.env, pkg_b.namespace
@@ -446,7 +453,7 @@ def versioned_task(task, ybin, root):
     model, old_models = C05.open_models(newest, ybin, root)     # raises GeneratorRejected if yardl rejects the chain
     try:
         try:
-            cm = C.CppModel(model.dir)
+            cm = C.CppModel(model.dir, sanitize=_sanitize(task))
         except C.GeneratedCodeDoesNotCompile:
             stats["generated_cpp_did_not_compile(discarded)"] = 1
             return {"stats": stats, "violations": [], "cases": [], "samples": []}
